@@ -37,7 +37,7 @@ func validateStored(t simmisc.Target, ctx chainstate.StateContextI) error {
 // only to values that parse and pass validation; a rejected change leaves all settings as they were.
 func TestC48_GovernanceSettings(t *testing.T) {
 	s := boot(t)
-	st := vkit.For("C48").SetRule("for each of the six settings functions (minersc update_settings, update_globals, storagesc update_settings + commit_settings_changes, faucetsc, zcnsc, vestingsc) sequences of 2..6 updates, each a map of 1..6 entries mixing: valid examples taken from the contracts' own settings tables, unknown names, names the contract marks immutable, unparsable values for the setting's type, extreme values (0, -1, huge); sent by the owner or by a stranger; optionally after the demeter hard fork was recorded; oracle on the contract's own rendering of its active settings: refused update (and any update by a stranger) => the rendering is identical; accepted => exactly the named keys differ, and no unknown / immutable / unparsable entry was in the map; the contract's own validate() still accepts the stored configuration; non-trivial = map with >= 1 valid and >= 1 invalid entry, or an accepted multi-key update; distinct by (target, maps)")
+	st := vkit.For("C48").SetRule("for each of the six settings functions (minersc update_settings, update_globals, storagesc update_settings + commit_settings_changes, faucetsc, zcnsc, vestingsc) sequences of 2..6 updates, each a map of 1..6 entries mixing: valid examples taken from the contracts' own settings tables, unknown names, names the contract marks immutable, unparsable values for the setting's type, extreme values (0, -1, huge); sent by the owner or by a stranger; optionally after the demeter hard fork was recorded; oracle on the contract's own rendering of its active settings: refused update (and any update by a stranger) => the rendering is identical; accepted => only named keys differ (for the staged storage settings: named by this update or by an earlier accepted owner update whose commit was refused and which the stage therefore still holds), and no unknown / immutable / unparsable entry was in the map; the contract's own validate() still accepts the stored configuration; non-trivial = map with >= 1 valid and >= 1 invalid entry, or an accepted multi-key update; distinct by (target, maps)")
 	rapid.Check(t, func(t *rapid.T) {
 		h := s.NewHistory(s.Genesis)
 		l := simmisc.New(h)
@@ -65,6 +65,7 @@ func TestC48_GovernanceSettings(t *testing.T) {
 		}
 		nUpd := rapid.IntRange(2, 6).Draw(t, "updates")
 		nontrivial := false
+		pending := map[string]bool{} // storage settings staged by accepted owner updates whose commit was refused
 		var descr []string
 		for u := 0; u < nUpd; u++ {
 			from := s.Owner
@@ -128,6 +129,13 @@ func TestC48_GovernanceSettings(t *testing.T) {
 			accepted := !o.Failed && !o.Rejected
 			what := fmt.Sprintf("%v by %s: %v", target, map[bool]string{true: "a stranger", false: "the owner"}[stranger], fields)
 			descr = append(descr, what+" -> "+map[bool]string{true: "accepted", false: "refused: " + o.Output}[accepted])
+			// names an accepted update may change: its own, plus - for the staged storage settings - the names of
+			// earlier accepted owner updates that are still waiting in the stage because their commit was refused
+			// (the stage survives a refused commit and the next successful commit applies all of it)
+			mayChange := map[string]bool{}
+			for k := range fields {
+				mayChange[k] = true
+			}
 			if target.NeedsCommit() {
 				// (before the demeter fork update_settings only stages the change; after it the contract applies it at once - both are judged on the result)
 				if accepted {
@@ -135,7 +143,22 @@ func TestC48_GovernanceSettings(t *testing.T) {
 					if err != nil {
 						t.Fatalf("%s", err.Error())
 					}
-					descr = append(descr, "commit -> "+map[bool]string{true: "ok", false: "refused: " + co.Output}[!co.Failed && !co.Rejected])
+					committed := !co.Failed && !co.Rejected
+					descr = append(descr, "commit -> "+map[bool]string{true: "ok", false: "refused: " + co.Output}[committed])
+					if committed {
+						for k := range pending {
+							mayChange[k] = true
+						}
+						if len(pending) > 0 {
+							st.Class("commit_applied_earlier_staged_updates")
+						}
+						pending = map[string]bool{}
+					} else {
+						for k := range fields {
+							pending[k] = true
+						}
+						st.Class("commit_refused_update_stays_staged")
+					}
 				}
 			}
 			after, err := l.Settings(target)
@@ -182,7 +205,7 @@ func TestC48_GovernanceSettings(t *testing.T) {
 				}
 			}
 			for _, k := range changed {
-				if _, named := fields[k]; !named {
+				if !mayChange[k] {
 					t.Fatalf("%s", viol("C48", "unnamed-setting-changed", h, "setting %s changed although the update did not name it (changed: %v) :: %s", k, changed, what))
 				}
 			}
